@@ -364,6 +364,10 @@ func (fc *FuncCtx) assumeTypeInv(st *St, t Term, gt types.Type) {
 				switch f.Sort.Kind {
 				case KSlice, KBStr, KMap:
 					fc.assumeTypeInv(st, App(f.Sort, f.Name, t), ft)
+				case KData:
+					if fd := fc.Sorts.dts[f.Sort.Name]; fd != nil && !fd.IsUnion && f.Sort.Name != t.Sort.Name {
+						fc.assumeTypeInv(st, App(f.Sort, f.Name, t), ft)
+					}
 				case KInt:
 					if stt != nil {
 						fc.assumeTypeInv(st, App(f.Sort, f.Name, t), ft)
